@@ -469,7 +469,7 @@ func runConcurrency(rc *RunCtx) *Violation {
 
 	nPrefix := 0
 	if simrt.Choose(2) == 1 {
-		nPrefix = simrt.Choose(11)
+		nPrefix = simrt.Choose(bound(11, 31))
 	}
 	var prefix []*concOp
 	for i := 0; i < nPrefix; i++ {
@@ -481,10 +481,10 @@ func runConcurrency(rc *RunCtx) *Violation {
 		op.key = fmt.Sprintf("p0|%s|%s", op.kind, op.input)
 		prefix = append(prefix, op)
 	}
-	nTasks := 2 + simrt.Choose(5)
+	nTasks := 2 + simrt.Choose(bound(5, 7))
 	taskOps := make([][]*concOp, nTasks)
 	for t := range taskOps {
-		n := 1 + simrt.Choose(6)
+		n := 1 + simrt.Choose(bound(6, 8))
 		for i := 0; i < n; i++ {
 			op := drawOp()
 			if op.rd != nil {
